@@ -1,6 +1,7 @@
 """C14 bounded companion: stub content depends only on the set of traces - permutations, duplications, batch splits of one
 trace multiset through real sqlite stores, stub generation in separate interpreters with different PYTHONHASHSEED."""
 import ast
+import importlib
 import itertools
 import os
 import random
@@ -92,6 +93,68 @@ def run(ctx):
                                         {"k": k, "arrangement": ai, "hashseed": hs, "rewriting": not extra}, d)
         finally:
             fx.close()
+    # ---- stub generation through the API from permutations of equal traces (union members arrive in different orders)
+    from monkeytype.stubs import build_module_stubs_from_traces
+    from monkeytype.typing import DEFAULT_REWRITER, NoOpRewriter
+    from typing import Tuple
+    fx = Fixture("fxc14api", k=0)
+    try:
+        m = fx.module()
+        top = importlib.import_module(fx.name)
+        sub = importlib.import_module(fx.name + ".sub")
+        H.section("permutations through the API", "generator traces that are equal as CallTraces but whose yield unions were built in different orders (6 homogeneous tuple types; classes of a package and of its sub-package), "
+                  "all orders of the trace list, default and no rewriter, k in {0,3}: identical stub up to union member order", "2 yield sets x 2 orders x 2 rewriters x 2 k")
+        DRIVER = (
+            "import sys, importlib\n"
+            "from typing import Tuple\n"
+            "from monkeytype.tracing import CallTrace\n"
+            "from monkeytype.stubs import build_module_stubs_from_traces\n"
+            "from monkeytype.typing import DEFAULT_REWRITER, NoOpRewriter\n"
+            "name, yname, order, lst_order, k, rw = sys.argv[1], sys.argv[2], int(sys.argv[3]), int(sys.argv[4]), int(sys.argv[5]), sys.argv[6]\n"
+            "m = importlib.import_module(name + '.mod'); top = importlib.import_module(name); sub = importlib.import_module(name + '.sub')\n"
+            "ys = {'tuples': [Tuple[int], Tuple[str, str], Tuple[float], Tuple[bytes], Tuple[bool], Tuple[int, int], Tuple[str]], 'pkg-and-subpkg': [top.Top, sub.Gadget]}[yname]\n"
+            "if order: ys = list(reversed(ys))\n"
+            "def mk(o):\n"
+            "    t = CallTrace(m.gen, {'n': int}, None)\n"
+            "    for y in o: t.add_yield_type(y)\n"
+            "    return t\n"
+            "t1, t2 = mk(ys), mk(list(reversed(ys)))\n"
+            "lst = [t1, t2] if not lst_order else [t2, t1]\n"
+            "print(build_module_stubs_from_traces(lst, k, rewriter=DEFAULT_REWRITER if rw == 'rw' else NoOpRewriter())[name + '.mod'].render())\n")
+        # typing caches generic aliases by *equal* arguments, so member order is lost inside one process: one fresh interpreter per arrangement
+        for yname in ("tuples", "pkg-and-subpkg"):
+            for k in (0, 3):
+                for rw in ("rw", "norw"):
+                    outs = []
+                    for order in (0, 1):
+                        for lst_order in (0, 1):
+                            env = dict(os.environ, PYTHONHASHSEED=str(order * 2 + lst_order + 1), PYTHONPATH=os.pathsep.join([fx.dir] + [p for p in sys.path if p]))
+                            p_ = subprocess.run([sys.executable, "-c", DRIVER, fx.name, yname, str(order), str(lst_order), str(k), rw], env=env, capture_output=True, text=True, cwd=fx.dir, timeout=120)
+                            outs.append(canon(p_.stdout) if p_.returncode == 0 else "ERROR " + p_.stderr[-300:])
+                    key = "api|%s|k=%d|%s" % (yname, k, rw)
+                    if len(set(outs)) == 1 and not outs[0].startswith("ERROR"):
+                        H.ok(key, sample={"yield_types": yname, "k": k, "stub": outs[0][-160:]})
+                    else:
+                        H.violation("monkeytype.stubs:build_module_stubs_from_traces", "api-order-dependent:%s" % key, "the stub depends on the order in which equal traces / union members arrive",
+                                    {"yield_types": yname, "k": k, "rewriter": rw}, sorted(set(o[-200:] for o in outs)))
+        # ---- raw duplicates beyond the query limit must not crowd out distinct traces
+        H.section("duplicates vs limit", "the same distinct traces stored once vs. with one of them recorded many times; `stub --limit 3`", "2 stores")
+        t_int, t_str = CallTrace(m.f, {"a": int}, int), CallTrace(m.f, {"a": str}, int)
+        outs = {}
+        for label, seq in (("plain", [[t_int, t_str]]), ("dups-after", [[t_str]] + [[t_int]] * 8), ("dups-before", [[t_int]] * 8 + [[t_str]])):
+            fx.reset_db()
+            st = fx.store()
+            for batch in seq:
+                st.add(batch)
+            st.conn.close()
+            rc, out, err = gen_stub_subprocess(fx, fx.name + ".mod", 1, ("--limit", "3"))
+            outs[label] = canon(out)
+        if outs["plain"] == outs["dups-after"] == outs["dups-before"] and outs["plain"].strip():
+            H.ok("dups-vs-limit", sample={"stub": outs["plain"][-120:]})
+        else:
+            H.violation("monkeytype.db.sqlite:make_query", "duplicates-consume-limit", "duplicated rows change the stub when a query limit is set", {"limit": 3}, outs)
+    finally:
+        fx.close()
     return H.result()
 
 
